@@ -29,7 +29,7 @@ const rounds = 3
 // observe runs every read-only operation of the property on e.
 func observe(e error) string {
 	var b strings.Builder
-	for _, v := range []string{"%v", "%+v", "%q", "%x"} {
+	for _, v := range []string{"%v", "%+v", "%q", "%x", "%40v", "%-12s", "%.7v", "%10.3s"} {
 		b.WriteString(fmt.Sprintf(v, e))
 		b.WriteString(fmt.Sprintf(v, errors.Formattable(e)))
 	}
@@ -68,11 +68,85 @@ func draw(t *rapid.T) *pbt.Case {
 		maxB = 20
 	}
 	c := &pbt.Case{}
-	g := gen.Default(gen.Regular()).Boost(2, gen.BarrierKinds...).Boost(2, "tags", "secondary", "mark", "join", "safedetails", "stack").Boost(4, "telemetry")
+	g := gen.Default(gen.Regular()).Boost(2, gen.BarrierKinds...).Boost(2, "tags", "secondary", "mark", "join", "safedetails", "stack").Boost(4, "telemetry").Boost(2, "domain", "ukeymarker")
 	c.Spec = g.Draw(t, rapid.IntRange(1, maxB).Draw(t, "budget"))
 	c.SetInt("decoded", rapid.IntRange(0, 1).Draw(t, "decoded"))
 	return c
 }
+
+// History independence ("each call returns the same result as when
+// executed alone"): what the observers return for an error does not
+// depend on which other errors the process has handled before. A case
+// is a sequence of trees: the first one is observed on a fresh build,
+// then the others are observed, then a fresh build of the first one
+// again - a memo, pooled buffer or registry entry keyed too coarsely
+// shows as a difference.
+func drawHistory(t *rapid.T) *pbt.Case {
+	maxB, maxN := 6, 5
+	if pbt.Thorough() {
+		maxB, maxN = 10, 8
+	}
+	g := gen.Default(gen.Regular()).Boost(3, "domain", "ukeymarker", "stack", "tags", "telemetry", "mark")
+	c := &pbt.Case{}
+	c.Spec = g.Draw(t, rapid.IntRange(1, maxB).Draw(t, "budget"))
+	if rapid.Bool().Draw(t, "valuelayer") {
+		// Construct the feature: the first tree gets an outermost layer
+		// that carries a value, and one of the trees handled in between
+		// is the same tree with other values in that layer (same Go
+		// types throughout: what a memo keyed by type would confuse).
+		k := rapid.SampledFrom([]string{"domain", "domain", "ukeymarker", "telemetry", "tags", "httpcode", "grpccode", "hint", "issuelink", "safedetails"}).Draw(t, "valuekind")
+		inner := c.Spec
+		c.Spec = g.WrapOf(t, k, inner)
+		c.Aux = append(c.Aux, g.WrapOf(t, k, inner.Clone()))
+	}
+	for i, n := 0, rapid.IntRange(1, maxN).Draw(t, "others"); i < n; i++ {
+		if rapid.IntRange(0, 3).Draw(t, "variant") == 0 {
+			// a near-equal variant of the first tree (same types, other values)
+			p, _ := gen.Perturb(t, c.Spec)
+			c.Aux = append(c.Aux, p)
+		} else {
+			c.Aux = append(c.Aux, g.Draw(t, rapid.IntRange(1, maxB).Draw(t, "budget")))
+		}
+	}
+	c.SetInt("decoded", rapid.IntRange(0, 1).Draw(t, "decoded"))
+	return c
+}
+
+func checkHistory(c *pbt.Case, r *pbt.R) {
+	mk := func(s *gen.Spec) error {
+		e := gen.Build(s)
+		if c.Int("decoded") == 1 {
+			return wire.Decode(wire.Encode(e))
+		}
+		return e
+	}
+	// (one call site for all builds: stack traces record the line)
+	seq := append(append([]*gen.Spec{c.Spec}, c.Aux...), c.Spec)
+	res := make([]string, len(seq))
+	for i, s := range seq {
+		res[i] = observe(mk(s))
+	}
+	if got, want := res[len(seq)-1], res[0]; got != want {
+		r.Failf("the result of a call depends on which other errors were handled before", "spec %s\nin between: %v\n%s", c.Spec, c.Aux, firstDiff(got, want))
+	}
+	if len(c.Aux) >= 2 {
+		r.NonTrivial()
+	}
+	r.St.CountN("errors handled in between", len(c.Aux))
+	r.Count("decoded", fmt.Sprint(c.Int("decoded")))
+}
+
+var histProp = &pbt.Prop{ID: "C18", Part: "history-independence", Draw: drawHistory, Check: checkHistory,
+	Valid: func(c *pbt.Case) bool {
+		for _, a := range c.Aux {
+			if !gen.SpecRegular(a) {
+				return false
+			}
+		}
+		return gen.SpecRegular(c.Spec)
+	}}
+
+func TestHistory(t *testing.T) { pbt.Run(t, histProp) }
 
 func check(c *pbt.Case, r *pbt.R) {
 	// Two identical errors built at the same call site: one is shared
